@@ -10,7 +10,7 @@ from sa.exc import CANCELLED
 from sa.flow import FnExit, Interp, TestAtom, call_of
 
 CLAIM = {
-    "text": "Decides the flow-control wiring of the asyncio adapters: every transport.write / writelines / sendto in an async send method is followed, on every normal path to the return, by an awaited drain of the protocol's flow control; the stream adapter forces the transport's write-buffer limits to 0 on every completing construction path; WriteFlowControl.resume_writing and .connection_lost each walk the whole waiter collection and complete every pending waiter on every branch (no break / early return), connection_lost clears the paused flag and is idempotent; drain() tests the connection-lost flag and decides (raise / return / park) without any suspension point in between (the closing-yield comes first), creates its waiter future per call, parks it before awaiting and removes exactly that future by identity (a cancelled sender removes only itself); the protocols' pause_writing / resume_writing / connection_lost forward to the flow-control object on every first-time path. (done) every completion of a shared waiter future in the flow-control / protocol modules is guarded by a `not done()` test on that future (or the future is fresh, or the completer lambda is applied by a function that tests done() first). Round 5: TLS records leave the write BIO only under the send lock (C12.tls): a cancelled waiting sender does not strand the others. Round 6: a waiter obtained from a getter that only hands out pending futures, or from a loop over the waiters filtered on not done(), counts as done-guarded; the lost marker may be an optional record; the zero write-buffer limit may be a module constant or set by a private helper.",
+    "text": "Decides the flow-control wiring of the asyncio adapters: every transport.write / writelines / sendto in an async send method is followed, on every normal path to the return, by an awaited drain of the protocol's flow control; the stream adapter forces the transport's write-buffer limits to 0 on every completing construction path; WriteFlowControl.resume_writing and .connection_lost each walk the whole waiter collection and complete every pending waiter on every branch (no break / early return), connection_lost clears the paused flag and is idempotent; drain() tests the connection-lost flag and decides (raise / return / park) without any suspension point in between (the closing-yield comes first), creates its waiter future per call, parks it before awaiting and removes exactly that future by identity (a cancelled sender removes only itself); the protocols' pause_writing / resume_writing / connection_lost forward to the flow-control object on every first-time path. (done) every completion of a shared waiter future in the flow-control / protocol modules is guarded by a `not done()` test on that future (or the future is fresh, or the completer lambda is applied by a function that tests done() first). Round 5: TLS records leave the write BIO only under the send lock (C12.tls): a cancelled waiting sender does not strand the others. Round 6: a waiter obtained from a getter that only hands out pending futures, or from a loop over the waiters filtered on not done(), counts as done-guarded; the lost marker may be an optional record; the zero write-buffer limit may be a module constant or set by a private helper. Round 7: WriteFlowControl.pause_writing / resume_writing are called only by the protocol callbacks of the same names; the connection-lost marker is found by its role (what the idempotence guard of connection_lost() tests).",
     "note": "Trusted: the interpreter's asyncio transports call pause_writing()/resume_writing()/connection_lost() as documented (DESIGN section 5, O3 records a CPython 3.12.1 writelines() deviation that no analysis of /repo can see). Not decided: liveness in time.",
     "technique": "must-pass-through typestate (write then drain), atomic-section analysis with may-suspend summaries, loop-totality and identity-removal shape checks on the ast program database",
 }
